@@ -1145,6 +1145,37 @@ def t_numpy_inplace_operators_on_attributes():
     w = b.v[1:]
     w -= 1
     return [s1, s2, b.v.tolist()]
+
+
+def t_itertools_more():
+    from itertools import accumulate, combinations, compress, count, dropwhile, islice, pairwise, permutations, product, takewhile, zip_longest
+    import operator
+    return [list(accumulate([1, 2, 3, 4])), list(accumulate([1, 2, 3], operator.mul)), list(accumulate([1, 2], initial=10)), list(product("ab", [0, 1])), list(product([0, 1], repeat=2)),
+            list(pairwise([1, 2, 3])), list(compress("abcd", [1, 0, 1, 0])), list(zip_longest([1, 2, 3], "a", fillvalue="-")), list(takewhile(lambda x: x < 3, [1, 2, 3, 1])),
+            list(dropwhile(lambda x: x < 3, [1, 2, 3, 1])), list(islice(count(5, 2), 3)), list(combinations([1, 2, 3], 2)), list(permutations([1, 2, 3], 2))[:4], list(zip(count(), "ab"))]
+
+
+def t_zip_enumerate_are_lazy_and_interleave():
+    log = []
+    def gen(tag, n):
+        for i in range(n):
+            log.append((tag, i))
+            yield (tag, i)
+    pairs = list(zip(gen("a", 3), gen("b", 2)))
+    order = list(log)
+    del log[:]
+    z = zip(gen("c", 2), gen("d", 2))
+    first = next(z)
+    after_first = list(log)
+    e = enumerate(gen("e", 3), start=5)
+    e1 = next(e)
+    out = [pairs, order, first, after_first, e1, list(e), dict(zip("ab", [1, 2])), [i + j for i, j in zip([1, 2], [10, 20])]]
+    try:
+        list(zip([1, 2], [1], strict=True))
+    except ValueError:
+        out.append("strict")
+    out.append(list(zip()))
+    return out
 '''
 
 
